@@ -33,6 +33,7 @@ ASSUMPTIONS = [
     'label source images are 160x205 8-bit RGBA PNGs',
 ]
 EXHAUSTIVE = {'quick': False, 'thorough': False}
+PYOPT_KINDS = (None,)
 TIMEOUT = {'quick': 1500, 'thorough': 10800}
 KNOWN_KEYS = {'raw-branch-typeerror', 'oversize-not-refused', 'version0-compressed'}
 LIMIT = rc.CODE_SIZE
